@@ -160,7 +160,44 @@ static inline int64_t gen_rows_uncapped(bool allow_big) {
     return 2000 + draw(68000);
 }
 
+// One or two REQUIRED fixed-width columns whose byte stream repeats with a period that sits on an LZ window
+// boundary (32 KiB / 64 KiB +-1 element): back-references at exactly the largest distance a compressor's
+// offset field can or cannot hold. Values are distinct within a period, so no nearer match exists.
+static inline Table gen_window_table() {
+    Table t; t.root.name = "schema"; t.root.leaf = false; t.want_big_pages = true;
+    static const int FT[] = {T_I32, T_I64, T_F64, T_F32, T_FLBA};
+    static const int64_t W[] = {65536, 32768, 65535, 65537, 32769, 131072, 65532, 65540};
+    int ncols = 1 + (int)draw(2);
+    int64_t rows = 0; std::vector<int64_t> period;
+    for (int i = 0; i < ncols; i++) {
+        Node n; n.leaf = true; n.name = "w" + std::to_string(i); n.type = FT[draw(5)]; n.rep = REQ; n.tlen = n.type == T_FLBA ? 16 : 0;
+        t.root.kids.push_back(n);
+        int64_t width = fixed_width(n.type, n.tlen), w = W[draw(8)];
+        int64_t per = std::max<int64_t>(1, (w + (draw(2) ? width - 1 : 0)) / width);
+        period.push_back(per);
+        rows = std::max(rows, per * 2 + (int64_t)draw(300));
+    }
+    derive_leaves(t);
+    RowGroup rg; rg.rows = rows; rg.cols.resize(t.cols.size());
+    for (size_t c = 0; c < t.cols.size(); c++) {
+        Chunk& ch = rg.cols[c]; ch.def.assign((size_t)rows, 0); ch.rep.assign((size_t)rows, 0);
+        uint32_t base = draw(1000), mul = 1 + 2 * draw(4);
+        int width = fixed_width(t.cols[c].type, t.cols[c].tlen);
+        for (int64_t i = 0; i < rows; i++) {
+            uint64_t x = (uint64_t)base + (uint64_t)(i % period[c]) * mul;
+            std::string v((size_t)width, '\0');
+            if (t.cols[c].type == T_F32) { float f = (float)x; memcpy(&v[0], &f, 4); }
+            else if (t.cols[c].type == T_F64) { double f = (double)x * 0.5; memcpy(&v[0], &f, 8); }
+            else memcpy(&v[0], &x, (size_t)std::min(width, 8));
+            ch.vals.push_back(v);
+        }
+    }
+    t.rgs.push_back(rg);
+    return t;
+}
+
 static inline Table gen_flat_table(const FlatOpts& o) {
+    if (o.allow_big && g_row_cap == 0 && draw(40) == 39) return gen_window_table();
     Table t;
     t.root.name = "schema"; t.root.leaf = false;
     int ncols = 1 + (int)draw((uint32_t)o.max_cols);
@@ -219,6 +256,7 @@ static inline WritePlan gen_write_plan(const FlatOpts& o) {
     p.table = gen_flat_table(o);
     p.codec = CODECS[draw(6)];
     p.page_size = PAGE_SIZES[draw(9)];
+    if (p.table.want_big_pages && draw(4) != 0) p.page_size = 1 << 20;
     p.created_by = draw(4) == 3 ? std::string(draw(200) + 1, 'x') : "";
     p.path_mode = draw(2) == 0;
     p.explicit_new_rg_last = draw(8) == 7;
